@@ -32,6 +32,10 @@ STRUCT_FAULTS = [
     ("unknown-method", "Inner { a.nope(): 1, .. }", "nope"),
     ("wrong-type-after-method", 'Inner { a.abs(): "x", .. }', '"x"'),
     ("wrong-index-type", 'Inner { xs["k"]: 1, .. }', '"k"'),
+    # one dereference more than the field's type supports: the fault is on the run of `*`s itself
+    ("deref-too-deep-2", "Inner { **a: 1, .. }", "**a"),
+    ("deref-too-deep-3", "Inner { ***a: 1, .. }", "***a"),
+    ("deref-too-deep-1-on-method", "Inner { *a.abs(): 1, .. }", "*a.abs()"),
 ]
 
 
